@@ -71,9 +71,40 @@ def resolver(pathattr, ic, relax):
     return trio[0]
 
 
+_FOREIGN = {}
+
+
+def foreign_tree(sep):
+    """A small tree of a class with ANOTHER separator: the same path text means something else there."""
+    other = "|" if sep != "|" else "/"
+    if other not in _FOREIGN:
+        cls = rr.make_class(other, "name")
+        top = cls("top")
+        cls("b", parent=cls("a", parent=top))
+        cls("a|b", parent=top)
+        cls("a/b", parent=top)
+        _FOREIGN[other] = top
+    return _FOREIGN[other]
+
+
+def use_on_foreign_tree(case, path, ic):
+    """The same text used on a tree with another separator just before (get and glob, same options): nothing that is
+    remembered about a path text may carry over to a class that splits it differently."""
+    top = foreign_tree(case["sep"])
+    for relax in (True, False):
+        for method in ("get", "glob"):
+            try:
+                getattr(resolver("name", ic, relax), method)(top, path)
+            except Exception:  # noqa: BLE001 - what the text means over there is not the point
+                pass
+
+
 def check_path(case, nodes, labels, start, path, acc):
     sep, pathattr, ic = case["sep"], case["pathattr"], case["ignorecase"]
     exp = rr.ref_get(start, path, sep, pathattr, ic)
+    if case.get("foreign_first"):
+        use_on_foreign_tree(case, path, ic)
+        acc.tag("paths_used_on_a_tree_with_another_separator_first")
     if case.get("prime_glob"):
         # the same text used as a glob pattern just before (any instance, same options): what glob() remembers about a
         # pattern must not change what get() does with the same text as a literal path
@@ -86,6 +117,11 @@ def check_path(case, nodes, labels, start, path, acc):
     strict = run_get(resolver(pathattr, ic, False), start, path)
     relaxed = run_get(resolver(pathattr, ic, True), start, path)
     ctx = "get(%s, %r) sep=%r pathattr=%s ignorecase=%s names=%s" % (labels.label(start), path, sep, pathattr, ic, case["names"])
+    if case.get("unreprable") and exp[0] != "node":
+        # strict mode words its refusal with the node's repr, which this class does not have; relaxed mode has nothing to word
+        if relaxed[0] != "node" or relaxed[1] is not None:
+            raise Violation("relaxed-raises" if relaxed[0] != "node" else "relaxed-not-none", "%s: relax=True on nodes whose repr() cannot be evaluated gave %s %s instead of None" % (ctx, relaxed[0], relaxed[1]))
+        return exp
     if exp[0] == "node":
         if strict[0] != "node" or strict[1] is not exp[1]:
             raise Violation("strict-result", "%s expected node %s, got %s %s" % (ctx, labels.label(exp[1]), strict[0], labels.label(strict[1]) if strict[0] == "node" else strict[1]))
@@ -256,7 +292,7 @@ def random_cases(draw):
     sep = draw(st.sampled_from(SEPS))
     pathattr = draw(st.sampled_from(["name", "name", "id"]))
     ic = draw(st.booleans())
-    names = [draw(st.one_of(name_strategy(sep), name_strategy(sep), st.integers(0, 12).map(lambda i: {"int": i}), name_strategy(sep).map(lambda t: {"tag": t}))) for _ in range(size)]
+    names = [draw(st.one_of(name_strategy(sep), name_strategy(sep), st.integers(0, 12).map(lambda i: {"int": i}), name_strategy(sep).map(lambda t: {"tag": t}), st.lists(st.integers(0, 3), max_size=2).map(lambda v: {"tup": v} if sep not in (" ", "-") else {"int": len(v)}))) for _ in range(size)]
     unique = draw(st.integers(0, 9)) < 7
     if unique:
         names = uniquify(names, parents)
@@ -287,7 +323,7 @@ def random_cases(draw):
             path = path + sep
         paths.append([draw(st.integers(0, size - 1)), path])
     muts = draw(strategies.tree_mutations(rename_values=st.sampled_from(texts)))
-    return {"shape": shape, "names": names, "sep": sep, "pathattr": pathattr, "ignorecase": ic, "roundtrip": unique, "flip": draw(st.integers(0, 65535)), "paths": paths, "mutations": muts, "prime_glob": draw(st.booleans())}
+    return {"shape": shape, "names": names, "sep": sep, "pathattr": pathattr, "ignorecase": ic, "roundtrip": unique, "flip": draw(st.integers(0, 65535)), "paths": paths, "mutations": muts, "prime_glob": draw(st.booleans()), "foreign_first": draw(st.integers(0, 2)) == 0, "unreprable": draw(st.integers(0, 5)) == 0}
 
 
 ENUM_COMPS = ["a", "b", "A", "..", ".", "", "zz"]
